@@ -281,8 +281,20 @@ class TlsEnv:
         E.contracts["nauyaca.security.pyopenssl_tls:get_peer_certificate_from_connection"] = Contract(
             "nauyaca.security.pyopenssl_tls:get_peer_certificate_from_connection", ensures=[],
             result=lambda ctx, a: T.make(lambda c, h: VLazyOpt(z3.Bool("conn_has_peercert"), lambda c2: VOpaque("x509", z3.Int("peer_x509_id")), "peer x509")))
+        # contract of the conversion (its real body is verified against it in C04's run, contracts/cert_funcs.py 'convert'):
+        # the result has the DER encoding of the argument, or the call raises
+        from contracts.cert_funcs import der_of
+
+        def converted(ctx, a):
+            src = ctx.force(a[0])
+            def make(c, h):
+                cid = c.fresh_int("converted_cert")
+                if isinstance(src, VOpaque):
+                    c.assume(der_of(cid) == der_of(src.ident))
+                return VOpaque("cert", cid)
+            return T.make(make)
         E.contracts["nauyaca.security.pyopenssl_tls:x509_to_cryptography"] = Contract(
-            "nauyaca.security.pyopenssl_tls:x509_to_cryptography", ensures=[], result=T.opaque("cert"), raises=["Exception*"])
+            "nauyaca.security.pyopenssl_tls:x509_to_cryptography", ensures=[], result=converted, raises=["Exception*"])
 
 
 def add_targets(E, spec, pid):
@@ -513,11 +525,28 @@ def add_targets(E, spec, pid):
         conn, tcp = h["g_conn"], h["g_tcp"]
         live = ctx.ghost.get("ended_by_want_read", z3.BoolVal(False))
         return z3.Implies(z3.And(live, env.present(ctx.peekf(p, "inner_protocol"))), z3.Length(ctx.getf(conn, "g_avail").z) == 0)
+    def dr_cert(ctx, old, args, outcome):
+        """[C04] provenance of the client certificate on the PyOpenSSL back end: the transport handed to an inner protocol created
+        by this event carries the certificate of THIS connection's peer (same DER as Connection.get_peer_certificate(), E4), or None"""
+        from contracts.cert_funcs import der_of
+        inner = ctx.ghost.get("inner")
+        if inner is None or "g_transport" not in ctx.heap[inner.oid]:
+            return z3.BoolVal(True)
+        w = ctx.heap[inner.oid]["g_transport"]
+        if not isinstance(w, VObj):
+            return z3.BoolVal(False)
+        pc = ctx.force(ctx.getf(w, "peer_certificate"))
+        if isinstance(pc, VNoneT):
+            return z3.BoolVal(True)          # no certificate: certificate rules refuse (fail closed)
+        if isinstance(pc, VOpaque):
+            return z3.And(z3.Bool("conn_has_peercert"), der_of(pc.ident) == der_of(z3.Int("peer_x509_id")))
+        return z3.BoolVal(False)
     contracts["data_received"] = Contract(
         f"{TP}.data_received", make_args=dr_args,
         ensures=[("[INV] invariant preserved (J1 inner => handshake complete, J3 inner stream == plaintext released, J4 timer while handshaking, J5 ciphertext in order)", inv_post),
                  ("[C07,C20] no exception escapes", no_raise),
-                 ("[C20] the inner protocol is created only after do_handshake() returned normally", dr_inner_after_hs)])
+                 ("[C20] the inner protocol is created only after do_handshake() returned normally", dr_inner_after_hs),
+                 ("[C04] the certificate attached to the inner protocol's transport is the one this connection's peer presented (same DER), or None", dr_cert)])
 
     def pump_inv(ctx, fr, i):
         p = fr.locals["self"]
